@@ -269,6 +269,39 @@ def c15_task_hash(h1: int, h2: int, a: int, b: int) -> bool:
     return guard(body, h1=h1, h2=h2, a=a, b=b)
 
 
+SCALARS = [1, True, 1.0, "1", b"1", 0, False, 0.0, "", None, 2, (1,), [1]]
+
+
+def _scalar_pair(i, j, order):
+    """Keys of t(a) and t(b) for real (untokenised) argument values, hashed by the real type registry in this order."""
+    t = _task(0)
+    a, b = SCALARS[i], SCALARS[j]
+    if order == 0:
+        ea = _key(t, [a, D1], {})
+        eb = _key(t, [b, D1], {})
+    else:
+        eb = _key(t, [b, D1], {})
+        ea = _key(t, [a, D1], {})
+    kw = _key(t, [D1], {"b": a}) == _key(t, [D1], {"b": b})
+    same = type(a) is type(b) and a == b
+    return (ea == eb) == same and kw == same
+
+
+def c15_scalar_values(k: int) -> bool:
+    """
+    post: _
+    """
+    def body():
+        # Python values that compare equal across types (1 == True == 1.0) are different arguments: whatever was hashed
+        # before in this process, their evaluation keys differ; the solver picks the pair and the hashing order
+        n = len(SCALARS)
+        i, j, order = choose(n, "a"), choose(n, "b"), choose(2, "order")
+        from crosshair.tracers import NoTracing
+        with NoTracing():
+            return _scalar_pair(i, j, order)
+    return guard(body, k=k)
+
+
 # ---------------------------------------------------------------------------------------------
 # Leading type tags of hash pre-images, regenerated from the source tree
 
@@ -403,6 +436,9 @@ CONDITIONS = [
     Condition(c15_invariance, slices=list(range(_N)), timeout=150, thorough_timeout=900,
               bounds="same templates; one call of every form and its image under keyword reordering / new config values / "
                      "default passed by keyword / another JobInfo object"),
+    Condition(c15_scalar_values, timeout=120,
+              bounds="two calls whose argument is a real Python value from %r (real pickle-based value hashes), both hashing "
+                     "orders; equal keys <=> same type and value" % (SCALARS,)),
     Condition(c15_task_hash, timeout=60, bounds="hash_eval over all integer task-hash and argument tokens"),
     Condition(c15_type_tags, timeout=60, bounds="all hash_struct call sites under redun/ (AST), z3 Distinct on the literal tags"),
 ]
@@ -420,6 +456,10 @@ def replay(cond, args, extra):
         e2, _ = hash_eval(reg, str(args["h2"]), [Tok("a%d" % args["a"])], {})
         bad = (e1 == e2) != (args["h1"] == args["h2"])
         return bad, "hash_eval task-hash sensitivity", None
+    if cond == "c15_scalar_values":
+        i, j, order = ch[0], ch[1], ch[2]
+        return (not _scalar_pair(i, j, order)), "arguments %r vs %r (hashed in order %d): evaluation keys %s" % (
+            SCALARS[i], SCALARS[j], order, "coincide/differ wrongly"), None
     if cond == "c15_type_tags":
         ok, detail = _type_tags_ok()
         return (not ok), detail, None
